@@ -66,11 +66,17 @@ def rand_float_text(rng):
         t = a + ("." + b if b else (".0" if rng.random() < 0.5 else ""))
         if rng.random() < 0.2:
             t = "0." + "0" * rng.randint(0, 5) + digits
+        elif rng.random() < 0.15:
+            t = "." + digits            # no digit before the decimal point
+        elif rng.random() < 0.1:
+            t = digits + "."            # none after it
     elif style < 0.5:      # integer-looking
         t = digits
     else:                  # scientific, lower-case e
         cut = rng.randint(1, nd)
         mant = digits[:cut] + ("." + digits[cut:] if digits[cut:] else "")
+        if rng.random() < 0.1:
+            mant = "." + digits
         ex = rng.randint(-300, 300 - nd)
         t = mant + "e" + (rng.choice(["", "+"]) if ex >= 0 else "") + str(ex)
         if rng.random() < 0.3:
@@ -368,6 +374,10 @@ def run(ctx):
             else:
                 xs.append(float("%de%d" % (rng.randint(1, 99), rng.randint(-30, 30))))
         call(case_roundtrip, xs)
+        if rng.random() < 0.15:
+            # batches of whole numbers of every magnitude up to and beyond the int64 / uint64 ranges, and negative zero
+            big = [2.0 ** 53, 2.0 ** 62, 2.0 ** 63, -2.0 ** 63, 1e19, -1.5e19, 2.0 ** 64, 1.8e19, 1e20, 1e22, -0.0, 0.0, 4.0, 1e15, 123456789012345680.0]
+            call(case_roundtrip, [rng.choice(big) for _ in range(rng.choice([1, 2, 4]))])
     ctx.sample({"float_roundtrip_batch": xs})
 
     # ---- E. lists of ints: join and split -----------------------------------------------------
@@ -454,6 +464,9 @@ def run(ctx):
             b = abs(rng.choice(hot)) if rng.random() < 0.3 else abs(rand_int(rng))
             a, b = (a if a != 2 ** 63 else 0), (b if b != 2 ** 63 else 0)
             rows.append(("c", str(a), str(b)))
+        if rng.random() < 0.3:
+            # explicit '+' signs and leading zeros (valid spellings), with or without a negative-free column
+            rows = [(c_, ("+" + a_ if rng.random() < 0.5 else a_), ("0" * rng.randint(0, 2) + b_)) for c_, a_, b_ in rows]
         call(case_bed, rows)
         rows = [(rng.randint(0, 10 ** 6), rng.randint(0, 10 ** 6), rand_float_text(rng)) for _ in range(n)]
         call(case_bdg, rows)
